@@ -333,7 +333,11 @@ def mixture_distribution_quantiles(dist, probs, N_grid_points: int = int(1e3), g
     probs_row_grid = onp.transpose(onp.tile(onp.array(probs), (cdf_grid.shape[0], 1)))
 
     def get_quantiles_for_one_observation(cdf_grid_one_obs):
-        return base_grid[onp.argmax(onp.greater(cdf_grid_one_obs, probs_row_grid), axis=1)]
+        above = onp.greater(cdf_grid_one_obs, probs_row_grid)
+        # If no grid point has a CDF value above the level, argmax of an all-False row would select the first (smallest)
+        # grid point; fall back to the last (largest) one instead.
+        idx = onp.where(above.any(axis=1), onp.argmax(above, axis=1), len(base_grid) - 1)
+        return base_grid[idx]
 
     # TODO: this is the main performance bottleneck. uses only one CPU core
     quantiles_grid = onp.apply_along_axis(
